@@ -46,6 +46,63 @@ def run_solver(name, path, timeout, seed=0):
     return first, dt, model
 
 
+def _cmd(name, path, timeout, seed):
+    if name == "z3-new":
+        return [Z3NEW, "-smt2", f"-T:{int(timeout)+1}", f"smt.random_seed={seed}", f"sat.random_seed={seed}", path]
+    if name == "z3":
+        return [Z3OLD, "-smt2", f"-T:{int(timeout)+1}", f"smt.random_seed={seed}", path]
+    if name == "cvc5":
+        return [CVC5, "--lang=smt2", f"--tlimit={int(timeout*1000)}", f"--seed={seed}", "--produce-models", path]
+    raise ValueError(name)
+
+
+def _classify(out):
+    first = out.strip().split("\n", 1)[0].strip() if out.strip() else "error"
+    if first not in ("sat", "unsat", "unknown", "timeout"):
+        first = "timeout" if "timeout" in first else "error:" + first[:200]
+    model = ""
+    if first == "sat":
+        model = out.split("\n", 1)[1] if "\n" in out else ""
+    return first, model
+
+
+def race(names, path, timeout, seed=0, all_solvers=False):
+    """run the solvers side by side; unless all answers are wanted, the first definite answer wins
+    and the others are killed (so a decided obligation does not keep two cores busy until the
+    time limit).  returns {name: (answer, seconds, model)}"""
+    import tempfile
+    t0 = time.time()
+    procs = {}
+    for n in names:
+        f = tempfile.TemporaryFile(mode="w+")
+        procs[n] = (subprocess.Popen(_cmd(n, path, timeout, seed), stdout=f, stderr=subprocess.DEVNULL, text=True), f)
+    res = {}
+    while len(res) < len(procs):
+        for n, (p, f) in procs.items():
+            if n in res:
+                continue
+            if p.poll() is not None:
+                f.seek(0)
+                a, m = _classify(f.read())
+                f.close()
+                res[n] = (a, time.time() - t0, m)
+                if a in ("sat", "unsat") and not all_solvers:
+                    for n2, (p2, f2) in procs.items():
+                        if n2 not in res:
+                            p2.kill()
+                            p2.wait()
+                            f2.close()
+                            res[n2] = ("killed", time.time() - t0, "")
+            elif time.time() - t0 > timeout + 5:
+                p.kill()
+                p.wait()
+                f.close()
+                res[n] = ("timeout", time.time() - t0, "")
+        if len(res) < len(procs):
+            time.sleep(0.02)
+    return res
+
+
 def solve(path, quick_t=3.0, full_t=20.0, seed=0, all_solvers=False):
     """returns dict(result, solver, seconds, model, answers)"""
     answers = {}
@@ -55,20 +112,18 @@ def solve(path, quick_t=3.0, full_t=20.0, seed=0, all_solvers=False):
         return dict(result=r, solver="z3-new", seconds=dt, model=model, answers=answers)
     best = (r, "z3-new", dt, model) if r in ("sat", "unsat") else None
     # race the others with the full timeout
-    with ThreadPoolExecutor(max_workers=3) as ex:
-        futs = {}
-        for s in ("z3", "cvc5", "z3-new"):
-            if s == "z3-new" and (r in ("sat", "unsat") or full_t <= quick_t):
-                continue
-            futs[s] = ex.submit(run_solver, s, path, full_t, seed)
-        for s, f in futs.items():
-            rr, dd, mm = f.result()
-            answers[s + ("#full" if s == "z3-new" else "")] = (rr, round(dd, 3))
-            if rr in ("sat", "unsat") and best is None:
-                best = (rr, s, dd, mm)
+    names = ["z3", "cvc5"]
+    if not (r in ("sat", "unsat") or full_t <= quick_t):
+        names.append("z3-new")
+    got = race(names, path, full_t, seed, all_solvers)
+    for s in names:
+        rr, dd, mm = got[s]
+        answers[s + ("#full" if s == "z3-new" else "")] = (rr, round(dd, 3))
+        if rr in ("sat", "unsat") and best is None:
+            best = (rr, s, dt + dd, mm)
     if best:
         return dict(result=best[0], solver=best[1], seconds=best[2], model=best[3], answers=answers)
-    return dict(result="unknown", solver="", seconds=sum(a[1] for a in answers.values()), model="", answers=answers)
+    return dict(result="unknown", solver="", seconds=dt + max(a[1] for a in got.values()), model="", answers=answers)
 
 
 def solve_many(paths, jobs=8, **kw):
